@@ -39,4 +39,39 @@ def known(fid: str) -> bool:
 
 
 def path_done() -> None:
-    _side({"k": "path"})
+    """kept for older harnesses: paths are now counted by the hook below"""
+    return None
+
+
+def _install_path_counter() -> None:
+    """count the execution paths CrossHair explores: crosshair.core.analyze_calltree calls the module-level attempt_call
+    exactly once per path (iteration); the wrapper records each one with its verdict in the side channel"""
+    if not os.environ.get("VERIF_XH_SIDE"):
+        return
+    try:
+        import crosshair.core as cc
+    except Exception:
+        return
+    if getattr(cc.attempt_call, "_verif_counted", False):
+        return
+    orig = cc.attempt_call
+
+    def attempt_call(*a, **k):
+        st = "aborted"
+        try:
+            r = orig(*a, **k)
+            vs = getattr(r, "verification_status", None)
+            st = vs.name.lower() if vs is not None else "ignored"
+            return r
+        finally:
+            try:
+                with open(os.environ["VERIF_XH_SIDE"], "a") as f:
+                    f.write(json.dumps({"k": "path", "st": st}) + "\n")
+            except Exception:
+                pass
+
+    attempt_call._verif_counted = True  # type: ignore
+    cc.attempt_call = attempt_call
+
+
+_install_path_counter()
